@@ -216,7 +216,7 @@ class Resolver:
                 return inner[1]  # &*x == x (reborrow)
             return ("ref", inner)
         if k == "cast":
-            return ("cast", self.operand(rv["op"], at, depth, stack), rv["to"]["s"])
+            return ("cast", self.operand(rv["op"], at, depth, stack), rv["to"]["s"], rv["from"]["s"])
         if k == "bin":
             return ("bin", rv["op"], self.operand(rv["a"], at, depth, stack), self.operand(rv["b"], at, depth, stack))
         if k == "un":
